@@ -13,6 +13,6 @@ for q, f in sorted(r.funcs.items()):
         continue
     h, order = shapes.shape(f.node)
     if order:
-        out[q] = {"digest": h, "locals": order}
+        out[q] = {"digest": h, "locals": order, "sigs": shapes.signatures(f.node)}
 json.dump(out, open('/verif/spec/function_shapes.json', 'w'), indent=0, sort_keys=True)
 print(len(out), "functions")
